@@ -2,6 +2,7 @@ SPECIFICATION Spec
 CONSTANTS
   Tier = "witness"
   Fams = {"patch"}
-  KnownCells = {}
+  KnownCells = {"ConvertFormatOnInteger"}
+  FixConvertObject <- NoFix
 CHECK_DEADLOCK FALSE
 INVARIANTS DesignSoundDone
